@@ -24,7 +24,7 @@ from gens.jose import ALL_JWS
 from ref import jws as rjws, jwe as rjwe, b64 as rb, keys as rk, selftest
 
 LEVEL = "exploration"
-RULE = ("(a) operations from a pool of 45 (sign/verify HS256 with two different keys, ES256, EdDSA, RS256 compact and JSON, key-set signing "
+RULE = ("(a) operations from a pool of 51 (sign/verify HS256 with two different keys, ES256, EdDSA, RS256 compact and JSON, key-set signing "
         "with random pick, A128KW / ECDH-ES / dir encrypt and decrypt, jwt encode/decode, thumbprint, ensure_kid, KeySet([...]), "
         "KeySet.as_dict, public export, PEM export, per-call allow-lists, caller registries, PBES2 with the right / a wrong password, keys carrying use / key_ops) run pairwise in two threads over shared Key / KeySet / registry objects rebuilt from "
         "stored material for every schedule (lazy initialisation is raced every time); the tracer switches threads only at the "
@@ -87,6 +87,8 @@ def material():
     tok["dir"] = jwe_tok("dir", "oct16")
     tok["ecdh"] = jwe_tok("ECDH-ES", "ec")
     tok["pbes2"] = jwe_tok("PBES2-HS256+A128KW", "oct1")
+    tok["kw_cbc"] = jwe_tok("A128KW", "oct16", "A128CBC-HS256")
+    tok["kw_c20p"] = jwe_tok("A128KW", "oct16", "C20P")
     M["tok"] = tok
     return M
 
@@ -349,6 +351,37 @@ def op_decrypt_pbes2_wrong(G):
     return jwe.decrypt_compact(material()["tok"]["pbes2"], G.oct2, algorithms=["PBES2-HS256+A128KW", "A128GCM"]).plaintext.decode()   # other password: refused
 
 
+def op_verify_hs_registry_and_list(G):
+    from joserfc import jws
+    # the caller passes its shared registry AND a narrower per-call list
+    return jws.deserialize_compact(material()["tok"]["hs_k1"], G.oct1, algorithms=["HS256"], registry=G.reg_jws).payload.decode()
+
+
+def op_verify_es_registry(G):
+    from joserfc import jws
+    return jws.deserialize_compact(material()["tok"]["es"], G.ecpub, registry=G.reg_jws).payload.decode()
+
+
+def op_encrypt_kw_cbc(G):
+    from joserfc import jwe
+    return _ref_decrypt(jwe.encrypt_compact({"alg": "A128KW", "enc": "A128CBC-HS256"}, b"secret text", G.oct16), "oct16")[:2]
+
+
+def op_decrypt_kw_cbc(G):
+    from joserfc import jwe
+    return jwe.decrypt_compact(material()["tok"]["kw_cbc"], G.oct16).plaintext.decode()
+
+
+def op_encrypt_kw_c20p(G):
+    from joserfc import jwe
+    return _ref_decrypt(jwe.encrypt_compact({"alg": "A128KW", "enc": "C20P"}, b"secret text", G.oct16, algorithms=["A128KW", "C20P"]), "oct16")[:2]
+
+
+def op_decrypt_kw_c20p(G):
+    from joserfc import jwe
+    return jwe.decrypt_compact(material()["tok"]["kw_c20p"], G.oct16, algorithms=["A128KW", "C20P"]).plaintext.decode()
+
+
 def op_read_kid(G):
     _ = (G.ec.kid, G.ed.kid, G.oct2.kid)     # merely looking at a key's kid (it may legitimately be None or the thumbprint by now)
     return "read"
@@ -428,7 +461,8 @@ OPS = {f.__name__[3:]: f for f in [
     op_verify_rs, op_sign_json_two, op_keyset_new, op_keyset_sign_pick, op_keyset_verify_kid, op_shared_keyset_dict, op_shared_keyset_sign, op_thumbprint,
     op_ensure_kid, op_export_public, op_export_pem, op_encrypt_kw, op_decrypt_kw, op_decrypt_dir, op_encrypt_ecdh, op_decrypt_ecdh, op_jwt_roundtrip,
     op_verify_disallowed, op_verify_ed_allowed, op_verify_hs256_list, op_verify_hs512_under_hs256_list, op_verify_hs512_list, op_sign_es_list,
-    op_decrypt_pbes2_right, op_decrypt_pbes2_wrong]}
+    op_decrypt_pbes2_right, op_decrypt_pbes2_wrong, op_verify_hs_registry_and_list, op_verify_es_registry, op_encrypt_kw_cbc, op_decrypt_kw_cbc, op_encrypt_kw_c20p,
+    op_decrypt_kw_c20p]}
 # shared, lazily initialised objects an operation touches: pairs sharing one get every single-preemption schedule even in the quick tier
 TOUCH = {"sigkey_first_use_sign": {"ec_sig"}, "sigkey_encrypt_refused": {"ec_sig"}, "sigkey_keyset": {"ec_sig"}, "sigkey_export": {"ec_sig"},
          "encrypt_kw_foreign_header": {"A128GCM", "A128KW"}, "read_kid": {"ec", "ed"}, "sign_es": {"ec"}, "verify_es_private_obj": {"ec"}, "keyset_new": {"ec", "ed"}, "keyset_sign_pick": {"ec", "oct2"}, "thumbprint": {"ec", "ed", "oct1"},
@@ -440,12 +474,16 @@ TOUCH = {"sigkey_first_use_sign": {"ec_sig"}, "sigkey_encrypt_refused": {"ec_sig
          "custom_jwe_registry": {"A128GCM", "A128KW"}, "custom_registry_sign": {"HS256"}, "sign_unregistered_header": {"HS256"},
          # per-call allow-lists: whatever the library keeps between calls for them is shared
          "verify_ed_allowed": {"allow-list"}, "verify_hs256_list": {"allow-list"}, "verify_hs512_under_hs256_list": {"allow-list"}, "verify_hs512_list": {"allow-list"},
-         "sign_es_list": {"allow-list"}, "decrypt_pbes2_right": {"PBES2"}, "decrypt_pbes2_wrong": {"PBES2"}}
+         "sign_es_list": {"allow-list"}, "decrypt_pbes2_right": {"PBES2"}, "decrypt_pbes2_wrong": {"PBES2"},
+         "verify_hs_registry_and_list": {"reg_jws"}, "verify_rs": {"reg_jws"}, "verify_es_registry": {"reg_jws"},
+         "encrypt_kw_cbc": {"A128CBC-HS256", "A128KW"}, "decrypt_kw_cbc": {"A128CBC-HS256", "A128KW"},
+         "encrypt_kw_c20p": {"C20P", "A128KW"}, "decrypt_kw_c20p": {"C20P", "A128KW"}}
 CORE = ["sign_hs_k1", "sign_hs_k2", "verify_hs_k1", "verify_hs_wrongkey", "sign_es", "verify_es_private_obj", "keyset_new", "keyset_sign_pick",
         "keyset_verify_kid", "thumbprint", "ensure_kid", "export_public", "encrypt_kw", "decrypt_kw", "encrypt_ecdh", "jwt_roundtrip", "shared_keyset_sign",
         "verify_disallowed", "verify_ed_allowed", "read_kid", "custom_registry_sign", "sign_unregistered_header",
         "encrypt_kw_foreign_header", "sigkey_first_use_sign", "sigkey_encrypt_refused", "sigkey_keyset", "sigkey_export",
-        "verify_hs256_list", "verify_hs512_under_hs256_list", "verify_hs512_list", "decrypt_pbes2_right", "decrypt_pbes2_wrong"]
+        "verify_hs256_list", "verify_hs512_under_hs256_list", "verify_hs512_list", "decrypt_pbes2_right", "decrypt_pbes2_wrong",
+        "verify_hs_registry_and_list", "verify_es_registry", "encrypt_kw_cbc", "decrypt_kw_cbc"]
 
 
 def outcome(fn, G):
